@@ -99,6 +99,7 @@ type half struct {
 	total    int    // bytes ever written into this half
 	cutAfter int    // cut the stream after this many bytes
 	lastDue  time.Duration
+	pending  [][]byte // written, not yet delivered (latency); delivered strictly in order
 }
 
 // Conn is one endpoint of a simulated connection.
@@ -510,7 +511,8 @@ func (c *Conn) Write(p []byte) (int, error) {
 				due = h.lastDue
 			}
 			h.lastDue = due
-			d := &delivery{ns: c.ns, h: h, data: data}
+			h.pending = append(h.pending, data)
+			d := &delivery{ns: c.ns, h: h}
 			time.AfterFunc(due-Now(), d.fire)
 			Fault("net.delay")
 		}
@@ -651,16 +653,23 @@ var _ net.Conn = (*Conn)(nil)
 var _ net.Listener = (*Listener)(nil)
 
 type delivery struct {
-	ns   *netState
-	h    *half
-	data []byte
+	ns *netState
+	h  *half
 }
 
+// fire delivers the oldest pending chunk (timers with equal due time may fire
+// in any order; the byte stream must not be reordered).
+//
 //go:norace
 func (d *delivery) fire() {
 	d.ns.lock()
-	d.h.buf = appendBytes(d.h.buf, d.data)
-	d.h.inflight -= len(d.data)
+	if len(d.h.pending) > 0 {
+		data := d.h.pending[0]
+		d.h.pending[0] = nil
+		d.h.pending = d.h.pending[1:]
+		d.h.buf = appendBytes(d.h.buf, data)
+		d.h.inflight -= len(data)
+	}
 	d.ns.unlock()
 	pokeCur()
 }
